@@ -9,7 +9,7 @@ rsync -a --exclude .git --exclude '__pycache__' /repo/ "$d"/
 if ! (cd "$d" && git apply --unsafe-paths -p1 "$patch" 2>/dev/null || patch -p1 -s -d "$d" < "$patch"); then
   echo "PATCH DID NOT APPLY"; rm -rf "$d"; exit 3
 fi
-VERIF_REPO_ROOT="$d" /verif/check "$pid" --tier "$tier" 2>&1 | tail -${LINES_OUT:-6}
+VERIF_EVIDENCE_DIR=/dev/shm/mx_evidence VERIF_REPO_ROOT="$d" /verif/check "$pid" --tier "$tier" 2>&1 | tail -${LINES_OUT:-6}
 rc=${PIPESTATUS[0]}
 rm -rf "$d"
 echo "exit=$rc"
